@@ -4,6 +4,8 @@ import (
 	"encoding/json"
 	"reflect"
 
+	"github.com/goatcms/goatcore/app"
+	"github.com/goatcms/goatcore/app/goatapp"
 	"github.com/goatcms/goatcore/filesystem"
 	"github.com/goatcms/goatcore/filesystem/filespace/memfs"
 	fsjson "github.com/goatcms/goatcore/filesystem/json"
@@ -22,6 +24,14 @@ import (
 type ConfigCase struct {
 	Doc  string `json:"doc,omitempty"`
 	Root []Node `json:"root,omitempty"`
+	// App (with Doc): the document is also the configuration file of an application that is booted
+	// on an in-memory working directory; the application's config scope must then hold the dotted
+	// keys of THAT document. Env is the environment, Via how it is chosen: "params" (Params.Env),
+	// "args" (--env=<env> on the command line), "default" (neither: the default environment, Env is
+	// ignored). The configuration file of another environment holds a decoy key.
+	App bool   `json:"app,omitempty"`
+	Env string `json:"env,omitempty"`
+	Via string `json:"via,omitempty"`
 }
 
 // GenConfig draws a config case.
@@ -29,6 +39,11 @@ func GenConfig(rt *rapid.T) Case {
 	c := &ConfigCase{}
 	if hx.Chance(rt, 50, "cfgread") {
 		c.Doc = GenRead(rt).Read.Doc
+		if hx.Chance(rt, 40, "cfgapp") {
+			c.App = true
+			c.Env = []string{"dev", "stage", "test", "prod", "qa_2"}[hx.Uniform(rt, 5, "cfgenv")]
+			c.Via = []string{"params", "args", "default", "args"}[hx.Uniform(rt, 4, "cfgvia")]
+		}
 	} else {
 		budget := 10
 		c.Root = genNodes(rt, rapid.IntRange(0, maxDepth()).Draw(rt, "depth"), &budget, true, true, true)
@@ -92,6 +107,12 @@ func execConfig(c ConfigCase) hx.Verdict {
 				return hx.Fail("flatten-dotted-keys", "flattened config %v, dotted-key form %v\ndoc: %s", flat, wantFlat, c.Doc)
 			}
 		}
+		if c.App && info.emptyObj == 0 {
+			if fv := appConfig(c, want); !fv.OK || fv.Inconclusive {
+				return fv
+			}
+			v.Label("config:application-boot:env-by-" + c.Via)
+		}
 		labelDoc(&v, c.Doc, info)
 		v.Label("config:read")
 		v.NonTrivial = info.needsEsc || info.depth >= 2
@@ -127,6 +148,67 @@ func execConfig(c ConfigCase) hx.Verdict {
 			v.Label("value-needs-escape")
 			v.NonTrivial = true
 		}
+	}
+	return v
+}
+
+// appConfig boots an application whose working directory holds the document as the
+// configuration file of the chosen environment and compares the config scope with the
+// dotted-key form of the standard decoder's result.
+func appConfig(c ConfigCase, want map[string]interface{}) hx.Verdict {
+	v := hx.Pass()
+	env, args, penv := c.Env, []string{"app"}, ""
+	switch c.Via {
+	case "params":
+		penv = env
+		args = append(args, "--env=other") // Params.Env is consulted first
+	case "args":
+		args = append(args, "--env="+env, "run")
+	case "default":
+		env = app.DefaultEnv
+	default:
+		v.Inconclusive = true
+		return v
+	}
+	for _, ch := range env {
+		if !(ch >= 'a' && ch <= 'z' || ch >= '0' && ch <= '9' || ch == '_') {
+			v.Inconclusive = true
+			return v
+		}
+	}
+	cwd, err := memfs.NewFilespace()
+	if err != nil {
+		v.Inconclusive = true
+		return v
+	}
+	decoyEnv := "prod"
+	if env == "prod" {
+		decoyEnv = "dev"
+	}
+	for path, doc := range map[string]string{"config/config_" + env + ".json": c.Doc, "config/config_" + decoyEnv + ".json": `{"decoy_of_another_environment":"x"}`,
+		"config/config_other.json": `{"decoy_of_another_environment":"y"}`} {
+		if path == "config/config_other.json" && env == "other" {
+			continue
+		}
+		if err := cwd.WriteFile(path, []byte(doc), filesystem.DefaultUnixFileMode); err != nil {
+			v.Inconclusive = true
+			return v
+		}
+	}
+	mapp, err := goatapp.NewMockupApp(goatapp.Params{Arguments: args, Env: penv, Filespaces: goatapp.Filespaces{CWD: cwd}})
+	if err != nil {
+		return hx.Fail("config-app-boot", "an application whose config file (environment %q chosen by %s) is a valid JSON object did not boot: %v\ndoc: %s", env, c.Via, err, c.Doc)
+	}
+	cfg := mapp.Scopes().Config()
+	wantFlat := map[string]interface{}{}
+	flattenIface(want, "", wantFlat)
+	for k, w := range wantFlat {
+		if got := cfg.Value(k); !reflect.DeepEqual(got, w) {
+			return hx.Fail("config-app-scope", "application booted with environment %q (chosen by %s): config key %q is %#v, the document of that environment says %#v\ndoc: %s", env, c.Via, k, got, w, c.Doc)
+		}
+	}
+	if got := cfg.Value("decoy_of_another_environment"); got != nil {
+		return hx.Fail("config-app-scope", "application booted with environment %q (chosen by %s): the config scope holds a key of another environment's file (%#v)", env, c.Via, got)
 	}
 	return v
 }
